@@ -21,6 +21,31 @@ pub tracked struct World {
     pub ghost handed: Seq<int>,     // ids taken out of the ready channel (= handed to the caller), in order
 }
 
+// ---- per-item event trace and stable facts (used by the item closures, DESIGN §5) ----
+pub ghost enum Ev {
+    UserStart,            // the user's closure was called for this item (its future was created)
+    UserEnd,              // the user's future resolved (try variants: with Ok)
+    UserFail,             // try variants: the user's future resolved with Err / Break
+    DoneSend(int),        // the item's id was sent on the done channel
+    ErrSend,              // the item's error was sent on the result channel
+    DoneTxDrop,           // the scheduler's done sender was released
+    Decrement,            // fns_remaining was decremented
+}
+
+pub uninterp spec fn trace(w: World) -> Seq<Ev>;
+/// this item holds a "ticket": it was handed out and has not decremented fns_remaining yet
+pub uninterp spec fn ticket(w: World) -> bool;
+/// the scheduler's done sender has been taken out of its cell (monotone: it is never put back)
+pub uninterp spec fn done_tx_gone(w: World) -> bool;
+
+/// facts that survive every suspension point and every effect that is not about them
+pub open spec fn keeps(w0: World, w1: World) -> bool {
+    &&& ticket(w1) == ticket(w0)
+    &&& (done_tx_gone(w0) ==> done_tx_gone(w1))
+    &&& w1.n == w0.n
+}
+
+
 pub spec const READY: int = 0;
 pub spec const DONE: int = 1;
 
